@@ -554,4 +554,85 @@ example : (runBatchResume demoCfg demoD demoOne ⟨[], 0⟩
 
 
 
+
+
+/-! ### which hash slots a multi-hash-slot command writes (the ownership filter)
+    validateCommandHashSlots on the direct path; on the ApplyDelta path
+    `hashSlotFilteredCommand.applyForHashSlot` — implemented by the batch commands 47, 63,
+    64, 65, NOT by command 59 (CreateChannelRuntimeMeta batch) -/
+
+/-- a command carrying items, each bound to its own hash slot -/
+structure MCmd where
+  typ : Nat
+  items : List (Nat × Nat)     -- (hash slot, row key)
+deriving Repr, DecidableEq
+
+/-- the multi-hash-slot command types with a per-hash-slot filter (`applyForHashSlot`) -/
+def hasSlotFilter (typ : Nat) : Bool := typ == 47 || typ == 63 || typ == 64 || typ == 65
+
+/-- the direct path: `validateCommandHashSlots` refuses the command (`none`, nothing written)
+    unless every item's hash slot is owned -/
+def directWrites (owned : List Nat) (c : MCmd) : Option (List (Nat × Nat)) :=
+  if c.items.all (fun it => owned.contains it.1) then some c.items else none
+
+/-- the ApplyDelta path for hash slot `hs`: `applyDeltaCmd.apply` — filtered commands apply
+    only the items of `hs`, every other command is applied whole -/
+def deltaWrites (hs : Nat) (c : MCmd) : List (Nat × Nat) :=
+  if hasSlotFilter c.typ then c.items.filter (fun it => it.1 == hs) else c.items
+
+/-- **delta_cmd59_writes_foreign_slot** (the finding as a theorem about the model): a delta
+    for an owned hash slot wrapping a command-59 batch also writes the batch's items of a
+    hash slot that is neither the delta's nor owned by the slot. -/
+theorem c13_delta_cmd59_writes_foreign_slot :
+    ∃ (owned : List Nat) (hs : Nat) (c : MCmd),
+      c.typ = 59 ∧ owned.contains hs = true ∧ directWrites owned c = none ∧
+      ∃ w ∈ deltaWrites hs c, w.1 ≠ hs ∧ owned.contains w.1 = false := by
+  refine ⟨[1, 2, 3], 3, ⟨59, [(3, 10), (5, 11)]⟩, rfl, by decide, by decide, (5, 11), by decide, by decide, by decide⟩
+
+/-- **unowned_refused_except_cmd59**: on the direct path a multi-hash-slot command writes
+    only owned hash slots or is refused with nothing written; on the delta path a command of
+    a type with the per-hash-slot filter writes only the delta's own hash slot — the one
+    exception is a type without the filter (command 59), see above. -/
+theorem c13_unowned_refused_except_cmd59 (owned : List Nat) (hs : Nat) (c : MCmd) :
+    (∀ ws, directWrites owned c = some ws → ∀ w ∈ ws, owned.contains w.1 = true) ∧
+    (directWrites owned c = none → ∃ it ∈ c.items, owned.contains it.1 = false) ∧
+    (hasSlotFilter c.typ = true → ∀ w ∈ deltaWrites hs c, w.1 = hs) ∧
+    (c.typ = 59 → deltaWrites hs c = c.items) := by
+  refine ⟨?_, ?_, ?_, ?_⟩
+  · intro ws h w hw
+    unfold directWrites at h
+    split at h
+    · rename_i hall
+      cases h
+      exact List.all_eq_true.1 hall w hw
+    · cases h
+  · intro h
+    unfold directWrites at h
+    split at h
+    · cases h
+    · rename_i hall
+      have hany : (c.items.any fun it => !owned.contains it.1) = true := by
+        cases ha : (c.items.any fun it => !owned.contains it.1) with
+        | true => rfl
+        | false =>
+          exfalso; apply hall
+          rw [List.all_eq_true]
+          intro x hx
+          have := List.any_eq_false.1 ha x hx
+          simpa using this
+      obtain ⟨it, hit, hc⟩ := List.any_eq_true.1 hany
+      exact ⟨it, hit, by simpa using hc⟩
+  · intro hf w hw
+    unfold deltaWrites at hw
+    rw [hf] at hw
+    simp only [if_true, List.mem_filter, beq_iff_eq] at hw
+    exact hw.2
+  · intro h59
+    unfold deltaWrites hasSlotFilter
+    simp [h59]
+
+example : deltaWrites 3 ⟨47, [(3, 10), (5, 11)]⟩ = [(3, 10)] := by decide
+example : directWrites [1, 2, 3] ⟨59, [(3, 10), (2, 11)]⟩ = some [(3, 10), (2, 11)] := by decide
+
+
 end WK.C13
